@@ -39,6 +39,7 @@ func (c *vpUtxoChain) heightOf(h *chainhash.Hash) int {
 var vpScriptA = []byte{0x51, 0xa1}
 var vpScriptB = []byte{0x51, 0xb2}
 var vpScriptX = []byte{0x51, 0xcc}
+var vpScriptC = []byte{0x51, 0xc3}
 
 // touches: the block's filter contains the script (an output with that
 // script is created, or an output with that script is spent).
@@ -76,13 +77,18 @@ type vpUtxoReq struct {
 	arrival int // 0 = before Start, k>0 = at the k-th chain callback
 	req     *GetUtxoRequest
 	script  []byte
+	fund    *wire.MsgTx // the transaction the requested outpoint names
+	fhash   chainhash.Hash
 }
 
 // VerifH_C10_scan: see file comment.
 func VerifH_C10_scan() {
 	nreq := vpParam("requests", 2)
 	tip := 3
-	grow := vpRange("tipGrows", 0, 1)
+	grow := 0
+	if vpParam("nogrow", 0) == 0 {
+		grow = vpRange("tipGrows", 0, 1)
+	}
 	finalTip := tip + grow
 
 	// ---- the chain ----
@@ -93,7 +99,18 @@ func VerifH_C10_scan() {
 	funding.TxIn = []*wire.TxIn{{PreviousOutPoint: wire.OutPoint{Index: 7}}}
 	fhash := funding.TxHash()
 	vpAssume(fhash != chainhash.Hash{})
-	fHeight := vpRange("fundingHeight", 0, 2) // 0 = the funding tx is nowhere on the chain
+	fHeight := vpRange("fundingHeight", vpParam("minfunding", 0), 2) // 0 = the funding tx is nowhere on the chain
+	// optionally a second funding transaction in the same block, before or
+	// after the first (requests may name outputs of either)
+	var funding2 *wire.MsgTx
+	var fhash2 chainhash.Hash
+	funding2First := false
+	if vpParam("twofundings", 0) == 1 {
+		funding2 = &wire.MsgTx{Version: 2, LockTime: 77, TxOut: []*wire.TxOut{{Value: 33, PkScript: vpScriptC}}}
+		funding2.TxIn = []*wire.TxIn{{PreviousOutPoint: wire.OutPoint{Index: 8}}}
+		fhash2 = funding2.TxHash()
+		funding2First = vpRange("secondFundingTxFirst", 0, 1) == 1
+	}
 	chain := &vpUtxoChain{tip: tip, finalTip: finalTip}
 	for h := 0; h <= finalTip; h++ {
 		blk := &wire.MsgBlock{Header: wire.BlockHeader{Nonce: uint32(h), Bits: 1}}
@@ -101,7 +118,14 @@ func VerifH_C10_scan() {
 		filler.TxIn = []*wire.TxIn{{PreviousOutPoint: wire.OutPoint{Index: uint32(50 + h)}}}
 		blk.Transactions = append(blk.Transactions, filler)
 		if h == fHeight && h > 0 {
-			blk.Transactions = append(blk.Transactions, funding)
+			switch {
+			case funding2 != nil && funding2First:
+				blk.Transactions = append(blk.Transactions, funding2, funding)
+			case funding2 != nil:
+				blk.Transactions = append(blk.Transactions, funding, funding2)
+			default:
+				blk.Transactions = append(blk.Transactions, funding)
+			}
 		}
 		chain.blocks = append(chain.blocks, blk)
 	}
@@ -148,8 +172,20 @@ func VerifH_C10_scan() {
 	// ---- requests ----
 	reqs := make([]*vpUtxoReq, nreq)
 	for r := 0; r < nreq; r++ {
-		q := &vpUtxoReq{idx: uint32(vpRange("reqOutput", 0, 2)), birth: uint32(vpRange("reqBirth", 1, 3)),
-			arrival: vpRange("reqArrival", 0, vpParam("arrivals", 2))}
+		q := &vpUtxoReq{idx: uint32(vpRange("reqOutput", 0, 2)), fund: funding, fhash: fhash}
+		if vpParam("birthatfunding", 0) == 1 && fHeight > 0 {
+			q.birth = uint32(fHeight) // every request starts at the block that creates the outputs
+		} else {
+			q.birth = uint32(vpRange("reqBirth", 1, 3))
+		}
+		q.arrival = vpRange("reqArrival", 0, vpParam("arrivals", 2))
+		if funding2 != nil && vpRange("reqNamesSecondFundingTx", 0, 1) == 1 {
+			q.fund, q.fhash = funding2, fhash2
+			q.idx = uint32(vpRange("reqOutput2", 0, 1))
+			q.script = vpScriptC
+			reqs[r] = q
+			continue
+		}
 		switch q.idx {
 		case 0:
 			q.script = vpScriptA
@@ -195,7 +231,7 @@ func VerifH_C10_scan() {
 		}
 		for _, q := range reqs {
 			if q.req == nil && q.arrival != 0 && q.arrival*3 == callbacks {
-				req, err := scanner.Enqueue(&InputWithScript{OutPoint: wire.OutPoint{Hash: fhash, Index: q.idx}, PkScript: q.script}, q.birth, nil)
+				req, err := scanner.Enqueue(&InputWithScript{OutPoint: wire.OutPoint{Hash: q.fhash, Index: q.idx}, PkScript: q.script}, q.birth, nil)
 				if err == nil {
 					q.req = req
 				}
@@ -217,7 +253,7 @@ func VerifH_C10_scan() {
 		}
 		if chain.filters[h] == nil {
 			var scripts [][]byte
-			for _, cand := range [][]byte{vpScriptA, vpScriptB, vpScriptX} {
+			for _, cand := range [][]byte{vpScriptA, vpScriptB, vpScriptC, vpScriptX} {
 				if vpBlockTouches(chain.blocks[h], cand, funding, fhash) {
 					scripts = append(scripts, cand)
 				}
@@ -269,7 +305,7 @@ func VerifH_C10_scan() {
 	scanner = NewUtxoScanner(cfg)
 	for _, q := range reqs {
 		if q.arrival == 0 {
-			req, err := scanner.Enqueue(&InputWithScript{OutPoint: wire.OutPoint{Hash: fhash, Index: q.idx}, PkScript: q.script}, q.birth, nil)
+			req, err := scanner.Enqueue(&InputWithScript{OutPoint: wire.OutPoint{Hash: q.fhash, Index: q.idx}, PkScript: q.script}, q.birth, nil)
 			vpAssert(err == nil, "enqueue-ok")
 			q.req = req
 		}
@@ -287,7 +323,7 @@ func VerifH_C10_scan() {
 	// requests that were to arrive at a callback that never happened arrive now
 	for _, q := range reqs {
 		if q.req == nil {
-			req, err := scanner.Enqueue(&InputWithScript{OutPoint: wire.OutPoint{Hash: fhash, Index: q.idx}, PkScript: q.script}, q.birth, nil)
+			req, err := scanner.Enqueue(&InputWithScript{OutPoint: wire.OutPoint{Hash: q.fhash, Index: q.idx}, PkScript: q.script}, q.birth, nil)
 			if err != nil {
 				vpAssert(stopRequested && err == ErrShuttingDown, "late-enqueue-refused-only-after-stop")
 				continue
@@ -338,7 +374,7 @@ func VerifH_C10_scan() {
 		for h := int(q.birth); h <= finalTip && wantTx == nil; h++ {
 			for _, tx := range chain.blocks[h].Transactions {
 				for i, in := range tx.TxIn {
-					if wantTx == nil && in.PreviousOutPoint.Hash == fhash && in.PreviousOutPoint.Index == q.idx {
+					if wantTx == nil && in.PreviousOutPoint.Hash == q.fhash && in.PreviousOutPoint.Index == q.idx {
 						wantTx, wantIn, wantH = tx, i, h
 					}
 				}
@@ -351,9 +387,12 @@ func VerifH_C10_scan() {
 			if report != nil && report.SpendingTx != nil {
 				vpAssert(int(report.SpendingInputIndex) == wantIn && int(report.SpendingTxHeight) == wantH, "reports-spend-index-and-height")
 			}
-		case fHeight > 0 && int(q.birth) == fHeight && q.idx < 2:
+		case fHeight > 0 && int(q.birth) == fHeight && int(q.idx) < len(q.fund.TxOut):
 			vpReach("expect-unspent-output")
-			vpAssert(report != nil && report.SpendingTx == nil && report.Output == funding.TxOut[q.idx], "reports-the-output-created-in-the-start-block")
+			if q.fund == funding2 {
+				vpReach("expect-unspent-output-of-the-second-funding-tx")
+			}
+			vpAssert(report != nil && report.SpendingTx == nil && report.Output == q.fund.TxOut[q.idx], "reports-the-output-created-in-the-start-block")
 			if report != nil && report.Output != nil {
 				vpAssert(int(report.BlockHeight) == fHeight && report.BlockHash != nil && *report.BlockHash == chain.hashes[fHeight], "reports-output-block")
 			}
